@@ -245,6 +245,17 @@ func candidates(cat *ga.Catalogue) *typeSet {
 		St(Sl(B("int")), B("int")), Sl(Sl(B("int"))), M(cat.NArr, P(B("float64"))),
 		// arrays and structs whose comparability is decided by their components
 		Ar(2, P(B("int"))), Ar(2, P(cat.S0)), St(Ar(2, P(B("int"))), B("string")), Ar(1, M(B("string"), B("int"))), St(B("int"), P(B("string")))}
+	// hardening round 4: ==-comparable types that declare their own Equal method (derived Equal of the key asks
+	// the method, derive.IsComparable and Go's == do not care), as parameter, behind a pointer, in an array
+	// and as a field of a struct parameter.  The methods ARE structural equality, so the classes of the
+	// property ("Equal, structurally") and the shared method-free model are unchanged.
+	id := ga.Named(47, "ID", 0, St(B("int"), B("int")))
+	id.Methods = "func (x ID) Equal(y ID) bool { return x.F0 == y.F0 && x.F1 == y.F1 }\n\n"
+	idp := ga.Named(48, "IDP", 0, St(B("string"), B("int8")))
+	idp.Methods = "func (x *IDP) Equal(y *IDP) bool {\n\tif x == nil || y == nil {\n\t\treturn x == nil && y == nil\n\t}\n\treturn x.F0 == y.F0 && x.F1 == y.F1\n}\n\n"
+	req := ga.Named(49, "Req", 0, St(id, Sl(B("int"))))
+	ts.comparable = append(ts.comparable, id, idp, Ar(2, id))
+	ts.noncomparable = append(ts.noncomparable, req, P(id), Sl(idp), St(idp, Sl(B("string"))))
 	ts.results = []*ga.Type{B("int"), B("string"), B("float64"), B("bool"), Sl(B("int")), P(B("int")), cat.S0, M(B("string"), B("int")), cat.NInt, Ar(2, B("string"))}
 	for _, l := range [][]*ga.Type{ts.comparable, ts.noncomparable, ts.results} {
 		for _, t := range l {
@@ -402,6 +413,101 @@ func equalVariant(r *hx.Rand, g *ga.Gen, tuple []*ga.Val) []*ga.Val {
 	return out
 }
 
+// copyKeep copies a value tree keeping every label: the copy denotes the same memory.
+func copyKeep(v *ga.Val) *ga.Val {
+	c := *v
+	c.Elems, c.Spare, c.KVs = nil, nil, nil
+	for _, e := range v.Elems {
+		c.Elems = append(c.Elems, copyKeep(e))
+	}
+	for _, e := range v.Spare {
+		c.Spare = append(c.Spare, copyKeep(e))
+	}
+	for _, kv := range v.KVs {
+		c.KVs = append(c.KVs, [2]*ga.Val{copyKeep(kv[0]), copyKeep(kv[1])})
+	}
+	return &c
+}
+
+// resliceVariant (hardening round 4) returns the tuple with ONE of its slices re-sliced: the same backing
+// array (same label), another length — buf[:2] where the earlier call got buf[:3], or the slice extended
+// into its spare capacity.  Everything that does not lie on the way to that slice is the very same memory
+// (same labels, same pointers); the pointers, slices and maps that CONTAIN the re-sliced header are new
+// memory (fresh labels: one piece of memory cannot hold two different slice headers).  The two tuples
+// share the array and are NOT Equal.  ok = false when the tuple holds no slice with an element or a
+// spare slot.
+func resliceVariant(r *hx.Rand, g *ga.Gen, tuple []*ga.Val) ([]*ga.Val, bool) {
+	out := make([]*ga.Val, len(tuple))
+	var cands []*ga.Val
+	seen := map[int]bool{}
+	var walk func(v *ga.Val)
+	walk = func(v *ga.Val) {
+		if v.K == "sl" && len(v.Elems)+len(v.Spare) > 0 && !seen[v.Loc] {
+			seen[v.Loc] = true
+			cands = append(cands, v)
+		}
+		for _, e := range v.Elems {
+			walk(e)
+		}
+		for _, kv := range v.KVs {
+			walk(kv[1])
+		}
+	}
+	for i, v := range tuple {
+		out[i] = copyKeep(v)
+		walk(out[i])
+	}
+	if len(cands) == 0 {
+		return nil, false
+	}
+	s := hx.Pick(r, cands)
+	all := append(append([]*ga.Val{}, s.Elems...), s.Spare...)
+	k := r.Intn(len(all) + 1)
+	if k == len(s.Elems) {
+		k = (k + 1) % (len(all) + 1)
+	}
+	if k == 0 && len(all) > 1 && r.Intn(4) != 0 {
+		k = 1 + r.Intn(len(all)-1)
+		if k == len(s.Elems) {
+			k = len(all)
+		}
+	}
+	lab, cur := s.Loc, len(s.Elems)
+	relabel := map[int]int{}
+	var fix func(v *ga.Val) bool // does v hold a re-sliced header?
+	fix = func(v *ga.Val) bool {
+		if v.K == "sl" && v.Loc == lab && len(v.Elems) == cur && len(v.Elems)+len(v.Spare) == len(all) {
+			// every copy of this header inside the tuple changes alike
+			v.Elems, v.Spare = append([]*ga.Val{}, all[:k]...), append([]*ga.Val{}, all[k:]...)
+			return true
+		}
+		ch := false
+		for _, e := range v.Elems {
+			if fix(e) {
+				ch = true
+			}
+		}
+		for _, kv := range v.KVs {
+			if fix(kv[1]) {
+				ch = true
+			}
+		}
+		if ch && (v.K == "p" || v.K == "sl" || v.K == "m") {
+			n, ok := relabel[v.Loc]
+			if !ok {
+				n = g.Fresh()
+				relabel[v.Loc] = n
+			}
+			v.Loc = n
+		}
+		return ch
+	}
+	for _, v := range out {
+		fix(v)
+	}
+	return out, true
+}
+
 func tupleSexp(t []*ga.Val) string {
 	var b strings.Builder
 	b.WriteByte('(')
@@ -426,8 +532,28 @@ func genHistory(r *hx.Rand, g *ga.Gen, pools [][]*ga.Val, maxLen int, meta *hx.M
 		switch {
 		case len(hist) > 0 && x < 3: // the very same argument values again (same pointers)
 			hist = append(hist, hist[r.Intn(len(hist))])
-		case len(hist) > 0 && x < 7: // Equal but not identical
+		case len(hist) > 0 && x < 6: // Equal but not identical
 			hist = append(hist, equalVariant(r, g, hist[r.Intn(len(hist))]))
+		case len(hist) > 0 && x == 6: // another view of an earlier argument's memory: one slice re-sliced
+			if t, ok := resliceVariant(r, g, hist[r.Intn(len(hist))]); ok {
+				hist = append(hist, t)
+				meta.CountSafe("histories/resliced-view-of-an-earlier-argument")
+			} else {
+				hist = append(hist, equalVariant(r, g, hist[r.Intn(len(hist))]))
+			}
+		case len(hist) > 0 && len(pools) > 1 && x == 7: // an earlier tuple with exactly one component replaced
+			old := hist[r.Intn(len(hist))]
+			t := make([]*ga.Val, len(old))
+			for j := range old {
+				t[j] = old[j].Clone(g.Fresh)
+			}
+			if r.Bool() {
+				copy(t, old) // the other components are the very same values
+			}
+			j := r.Intn(len(pools))
+			t[j] = hx.Pick(r, pools[j]).Clone(g.Fresh)
+			hist = append(hist, t)
+			meta.CountSafe("histories/one-component-replaced")
 		default:
 			t := make([]*ga.Val, len(pools))
 			for j, p := range pools {
@@ -466,6 +592,8 @@ func collidingValues(g *ga.Gen, t *ga.Type) []*ga.Val {
 		return []*ga.Val{sl(str("Aa")), sl(str("BB"))}
 	case "[]uint8":
 		return []*ga.Val{sl(num("1"), num("0")), sl(num("0"), num("31"))}
+	case "ID": // struct{F0, F1 int}: (17*31+1)*31+31 == (17*31+2)*31+0
+		return []*ga.Val{{K: "st", Elems: []*ga.Val{num("1"), num("31")}}, {K: "st", Elems: []*ga.Val{num("2"), num("0")}}}
 	}
 	return nil
 }
@@ -497,6 +625,14 @@ func genReentrant(r *hx.Rand, g *ga.Gen, s *sig, pools [][]*ga.Val, maxOuter int
 	for len(us) < nU {
 		if len(us) > 0 && r.Intn(10) < 3 {
 			us = append(us, equalVariant(r, g, us[r.Intn(len(us))]))
+		} else if len(us) > 0 && r.Intn(8) == 0 {
+			// another view of the memory of an earlier tuple (one slice re-sliced): not Equal to it
+			if t, ok := resliceVariant(r, g, us[r.Intn(len(us))]); ok {
+				us = append(us, t)
+				meta.CountSafe("reentrant/resliced-view-in-the-universe")
+			} else {
+				us = append(us, newTuple())
+			}
 		} else {
 			us = append(us, newTuple())
 		}
